@@ -685,8 +685,8 @@ class LinearFilter(LinearFilterProperties):
 
   def __ne__(self, other):
     if isinstance(other, LinearFilter):
-      return self.numpoly != other.numpoly and self.denpoly != other.denpoly
-    return False
+      return self.numpoly != other.numpoly or self.denpoly != other.denpoly
+    return True
 
 
 class ZFilterMeta(AbstractOperatorOverloaderMeta):
